@@ -3,6 +3,7 @@ package main
 import (
 	"encoding/json"
 	"fmt"
+	"math/big"
 	"sort"
 	"strings"
 
@@ -42,6 +43,15 @@ var c28Space = &treeSpace{name: "c28", build: func() []expr.Expr {
 		x = expr.NewMemLoad("mem", expr.NewBinary(expr.Add, x, ir.ConstU(uint64(d), 1), 2), 2)
 		out = append(out, x)
 		out = append(out, expr.NewLess(x, expr.One, x, expr.NewLess(expr.Zero, x, expr.One, x, 1), 2))
+	}
+	// constants wider than a machine word that agree in their low 8 bytes (5 and 2^64+5, 0 and
+	// 2^64, 2^64 and 2^72), bare and inside otherwise identical trees
+	for _, v := range []*big.Int{big.NewInt(5), new(big.Int).Add(new(big.Int).Lsh(big.NewInt(1), 64), big.NewInt(5)), new(big.Int), new(big.Int).Lsh(big.NewInt(1), 64), new(big.Int).Lsh(big.NewInt(1), 72)} {
+		for _, w := range []expr.Width{10, 16} {
+			k := ir.Const(v, w)
+			out = append(out, k, expr.NewBinary(expr.Add, k, expr.NewRegLoad("r1", 1), w), expr.NewMemLoad("mem", k, 2),
+				expr.NewLess(expr.NewRegLoad("r1", 1), k, expr.One, k, w))
+		}
 	}
 	c28ChainFrom = len(out)
 	// chains of three nested nodes (every kind with children at every level, every width
@@ -346,7 +356,7 @@ func c28Run(c c28Case) *eng.Fail {
 
 func init() {
 	checks["C28"] = eng.Check{
-		Rule: "On a space of ~6k trees (all 1-internal-node trees over 6 leaves x widths 1,2 x two memory keys; all 2-internal-node trees over 2 leaves; deep self-nested trees; plus ~600 chains of three nested nodes — every kind with children at every level, widths 1/2, every operand slot, quiet leaves beside — for FindAll/ReplaceAll): Equal on ALL ordered pairs of the first group vs. equality of an independent canonical rendering; FindAll for each of the 5 node kinds vs. own pre-order walk; ReplaceAll for 5 kinds x 5 replacement functions (none/all/some/wrap/ignored) vs. own bottom-up model incl. the multiset of nodes f was applied to; Exprs/ExprsMany/EffectApply/EffectsApply (applied twice, input list must stay untouched) on RegStore/MemStore of every tree x 3 widths, with functions that change every operand, none, only the value and only the address. Non-trivial = Equal pair with equal kinds and widths; find/replace with at least one match.",
+		Rule: "On a space of ~6k trees (all 1-internal-node trees over 6 leaves x widths 1,2 x two memory keys; all 2-internal-node trees over 2 leaves; deep self-nested trees; constants of 10 and 16 bytes that agree in their low 8 bytes, bare and inside otherwise identical trees; plus ~600 chains of three nested nodes — every kind with children at every level, widths 1/2, every operand slot, quiet leaves beside — for FindAll/ReplaceAll): Equal on ALL ordered pairs of the first group vs. equality of an independent canonical rendering; FindAll for each of the 5 node kinds vs. own pre-order walk; ReplaceAll for 5 kinds x 5 replacement functions (none/all/some/wrap/ignored) vs. own bottom-up model incl. the multiset of nodes f was applied to; Exprs/ExprsMany/EffectApply/EffectsApply (applied twice, input list must stay untouched) on RegStore/MemStore of every tree x 3 widths, with functions that change every operand, none, only the value and only the address. Non-trivial = Equal pair with equal kinds and widths; find/replace with at least one match.",
 		Run: func(r *eng.Run) {
 			ts := c28Space.get()
 			n := len(ts)
